@@ -1,4 +1,69 @@
-From HP Require Import Base.Prelude KV.Types KV.FS KV.Handle KV.Run.
-Example C14_smoke : snapshot kv_init <> [].
-Proof. vm_compute. discriminate. Qed.
-Print Assumptions C14_smoke.
+(* C14 -- A failing store never turns into silent success, a panic or a wedged FS.
+   Model: the key-value FS model (KV/FS.v, KV/Handle.v) counts every store call (Get, Set, a record's lazy
+   Data()/ReadDirNames()) in [st_calls]; [st_fault = Some k] makes call number k fail.  [fired a b]: the
+   failing call happened between states a and b.  The same fault index is injected into the implementation
+   (plain Store and TransactionStore) and the model on every history of the check.
+   PROVED (all states, paths, fault indices): a fault that fires inside Mkdir, Remove, Chmod or Chtimes makes
+   the operation return an error and leaves every record of the store as it was; the fault fires at most
+   once, so everything afterwards is the fault-free model; the model's step function has no panic outcome
+   (an implementation panic can therefore never agree with it).
+   NOT proved: the same statement for OpenFile, WriteFile, Rename, MkdirAll, RemoveAll and the handle
+   operations -- there the code deliberately ignores failures of look-ups it did not need (the prefetched
+   parent of an existing file, ancestors above the first existing directory), which the check's oracle
+   treats as immaterial when result and store equal the failure-free ones. *)
+From HP Require Import Base.Prelude Base.Path KV.Types KV.FS KV.Handle KV.Run KV.Corr KV.FaultProofs.
+Open Scope N_scope.
+
+Theorem C14_mkdir_reports_the_failing_store_call : forall st p perm,
+  fired st (fst (kv_mkdir st p perm)) ->
+  snd (kv_mkdir st p perm) <> None /\ st_store (fst (kv_mkdir st p perm)) = st_store st.
+Proof. exact mkdir_fault_is_reported. Qed.
+Print Assumptions C14_mkdir_reports_the_failing_store_call.
+
+Theorem C14_remove_reports_the_failing_store_call : forall st p,
+  fired st (fst (kv_remove st p)) ->
+  snd (kv_remove st p) <> None /\ st_store (fst (kv_remove st p)) = st_store st.
+Proof. exact remove_fault_is_reported. Qed.
+Print Assumptions C14_remove_reports_the_failing_store_call.
+
+Theorem C14_chmod_reports_the_failing_store_call : forall st p m,
+  fired st (fst (kv_chmod st p m)) ->
+  snd (kv_chmod st p m) <> None /\ st_store (fst (kv_chmod st p m)) = st_store st.
+Proof. exact chmod_fault_is_reported. Qed.
+Print Assumptions C14_chmod_reports_the_failing_store_call.
+
+Theorem C14_chtimes_reports_the_failing_store_call : forall st p t,
+  fired st (fst (kv_chtimes st p t)) ->
+  snd (kv_chtimes st p t) <> None /\ st_store (fst (kv_chtimes st p t)) = st_store st.
+Proof. exact chtimes_fault_is_reported. Qed.
+Print Assumptions C14_chtimes_reports_the_failing_store_call.
+
+(* a rejected Set changes nothing and is reported; a failed Get is reported as a non-ENOENT error *)
+Theorem C14_rejected_set_is_reported : forall st p r,
+  fired st (fst (sset st p r)) -> snd (sset st p r) = Some (Bare EOTHER) /\ st_store (fst (sset st p r)) = st_store st.
+Proof. intros st p r. apply sset_spec. Qed.
+Print Assumptions C14_rejected_set_is_reported.
+
+Theorem C14_failed_lookup_is_not_mistaken_for_missing : forall st p,
+  fired st (fst (get_file st p)) -> exists e, snd (get_file st p) = inr e /\ err_cls e = EOTHER.
+Proof. intros st p. apply get_file_spec. Qed.
+Print Assumptions C14_failed_lookup_is_not_mistaken_for_missing.
+
+(* after the failure the store works again: the fault cannot fire a second time *)
+Theorem C14_fault_fires_at_most_once : forall a b c, ext a b -> ext b c -> fired a b -> ~ fired b c.
+Proof. exact fault_fires_once. Qed.
+Print Assumptions C14_fault_fires_at_most_once.
+
+(* the model has no panic outcome *)
+Theorem C14_model_never_panics : forall st o, snd (step st o) <> VPanic.
+Proof.
+  intros st o. destruct o; unfold step;
+    match goal with |- context [let '(_, _) := ?x in _] => destruct x as [? r] end;
+    try destruct r; cbn [snd of_err]; discriminate.
+Qed.
+Print Assumptions C14_model_never_panics.
+
+Example C14_nonvacuous :
+  let st := with_fault kv_init (Some 1%nat) in
+  fired st (fst (kv_mkdir st (S "a") 493)) /\ snd (kv_mkdir st (S "a") 493) = Some (PathErr (S "a") EOTHER).
+Proof. vm_compute. split; [exists 1%nat; split; [reflexivity|lia]|reflexivity]. Qed.
